@@ -100,7 +100,7 @@ def _body_summary(vc, body, calls):
 
 # concrete page bodies (small, and larger than any plausible size cap) tried first as counter-models: obligations whose only
 # counter-models are pages of many kilobytes are otherwise beyond the string solvers
-MER_CANDS = [dict(status=st, message="m", body=bd) for st in (400, 502) for bd in (b"<html>x</html>", b"<html>" + b"x" * 9000 + b"</html>", b"<html>" + b"y" * 70000 + b"</html>")]
+MER_CANDS = [dict(message="m", body=bd) for bd in (b"<html>x</html>", b"<html>" + b"x" * 9000 + b"</html>", b"<html>" + b"y" * 70000 + b"</html>")]
 
 
 @scenario("make_error_response", functions=[M, "mitmproxy.http:Response.make", "mitmproxy.net.http.http1.assemble:assemble_response"],
